@@ -178,6 +178,28 @@ static void gen_case(long idx)
 	/* the first 132 cases are fixed: every key's own alg name (and "none") followed by 1..4096 filler characters, correctly signed */
 	int det = idx < 12 * (NKEYS + 1);
 	if (det) { cls = 15; kidx = (int)(idx % (NKEYS + 1)) - 1; }
+	/* the next cases are fixed too: unregistered names that follow the pattern of the registered ones (family + number), shown unsigned to
+	 * the key-less checkers and correctly signed (under the key's real alg) to the keyed ones */
+	{
+		static const char *FAM[] = { "HS", "RS", "ES", "PS" };
+		static const char *NUM[] = { "0", "1", "128", "224", "255", "257", "383", "385", "511", "513", "640", "768", "1024", "000", "0256", "2560", "-256", "256K", "128K", "512K" };
+		static const char *ODD[] = { "EdDSA256", "EdDSA0", "Ed25519", "Ed448", "EDDSA", "none0", "none1", "nonE", "non", "HS", "ES256k", "RSA256", "HMAC256", "SHA256", "A128KW", "dir", "RSA-OAEP", "ECDH-ES" };
+		long base = 12 * (NKEYS + 1), nn = 4 * 20 + 18, q = idx - base;
+		if (q >= 0 && q < nn * 2) {
+			char name[32], hdr[96];
+			long w = q / 2;
+			const char *pl = PAYLOADS[0];
+			if (w < 80) snprintf(name, sizeof(name), "%s%s", FAM[w / 20], NUM[w % 20]); else snprintf(name, sizeof(name), "%s", ODD[w - 80]);
+			kidx = (q & 1) ? (int)(w % NKEYS) : -1;
+			snprintf(hdr, sizeof(hdr), "{\"alg\":\"%s\"}", name);
+			tok = token_from_parts(hdr, strlen(hdr), pl, strlen(pl), kidx);
+			gen_class[15]++;
+			vh_case_begin(idx, "\"cls\":15,\"name\":\"%s\"", name);
+			run_token(tok, 0, 15);
+			free(tok);
+			return;
+		}
+	}
 	gen_class[cls]++;
 	switch (cls) {
 	case 0:	/* plain valid */
